@@ -11,11 +11,13 @@ package main
 
 import (
 	"fmt"
+	"io"
 	"math"
 	"strconv"
 	"strings"
 	"sync"
 
+	"fortio.org/log"
 	"grol.io/grol/eval"
 	"grol.io/grol/extensions"
 	"grol.io/grol/object"
@@ -25,6 +27,8 @@ var extOnce sync.Once
 
 func initExtensions() {
 	extOnce.Do(func() {
+		log.SetOutput(io.Discard) // the interpreter's warnings are not observations
+		log.SetLogLevelQuiet(log.Critical)
 		if err := extensions.Init(nil); err != nil {
 			panic(err)
 		}
